@@ -36,9 +36,30 @@ def witness_programs(rep, prop):
     """known findings whose witness is a small C program (features the script harness does not drive, e.g. task sources):
     built against /repo as it is now (ASan) and run; the finding is printed when the program still fails the recorded way"""
     import os, re, vlib
-    for k in vlib.load_known(prop):
+    import json
+    allk = [k for k in json.load(open(os.path.join(vlib.VERIF, 'known_findings.json'))).get('findings', []) if k['property'] == prop and k.get('witness_c')]
+    out = []
+    for k in allk:
         src = k.get('witness_c')
-        if not src or any(kh[0] == k['id'] for kh in rep.known_hits):
+        if k.get('status') != 'open':
+            # a repaired finding: its witness program is a regression test
+            exe, log = vlib.build_harness('witness_%s' % k['id'].replace('-', '_'), src, LIB_SRCS, extra=['-lpthread', '-ldl'], defines=DEFINES,
+                                          sanitize='address')
+            if exe is None:
+                rep.notes.append('witness of repaired finding %s does not compile against /repo any more: %s' % (k['id'], log[-300:]))
+                continue
+            e = dict(os.environ, ASAN_OPTIONS='detect_leaks=0:abort_on_error=0:exitcode=97')
+            try:
+                rc, so, se = vlib.sh([exe], timeout=60, env=e)
+            except Exception as ex:
+                rc, so, se = 124, '', str(ex)
+            rep.cov.setdefault('witness_programs_of_repaired_findings', []).append({'id': k['id'], 'exit': rc})
+            if rc != 0:
+                p = vlib.save_replay(prop, 'witness_%s.json' % k['id'], {'property': prop, 'finding': k['id'], 'what': k['what'],
+                                     'program': 'harness/' + src, 'exit': rc, 'stderr': se[-3000:]})
+                out.append((p, 'the witness program of repaired finding %s fails again (exit %d): %s' % (k['id'], rc, (re.search(r'ERROR: AddressSanitizer: [^\n]*', se) or re.search(r'.*', se[-200:])).group(0)), True))
+            continue
+        if any(kh[0] == k['id'] for kh in rep.known_hits):
             continue
         exe, log = vlib.build_harness('witness_%s' % k['id'].replace('-', '_'), src, LIB_SRCS, extra=['-lpthread', '-ldl'], defines=DEFINES,
                                       sanitize='address')
@@ -55,4 +76,32 @@ def witness_programs(rep, prop):
             rep.known(k['id'], k['what'])
         else:
             rep.notes.append('known finding %s no longer reproduces on its witness program (exit %d)' % (k['id'], rc))
+    return out
+
+
+def task_stress(rep, prop, tier, sanitize):
+    """harness/task_stress.c against /repo as it is now: tasks of random length while their modules are paused, stopped,
+    deregistered (the schedule the script harness steers around); any sanitizer report is a violation with the seed as input"""
+    import os, re, vlib
+    exe, log = vlib.build_harness('task_stress_%s' % sanitize, 'task_stress.c', LIB_SRCS, extra=['-lpthread', '-ldl'], defines=DEFINES, sanitize=sanitize)
+    if exe is None:
+        rep.infra_error = 'task_stress.c does not compile against /repo: ' + log[-800:]
+        return []
+    seeds = range(1, 4) if tier == 'quick' else range(1, 25)
+    e = dict(os.environ, ASAN_OPTIONS='detect_leaks=0:abort_on_error=0:exitcode=97', TSAN_OPTIONS='halt_on_error=0:exitcode=66:report_signal_unsafe=0')
+    runs = 0
+    for sd in seeds:
+        try:
+            rc, so, se = vlib.sh([exe, str(sd)], timeout=300, env=e)
+        except Exception as ex:
+            rc, so, se = 124, '', 'timeout: %s' % ex
+        runs += 1
+        lib = '/Lib/' in se
+        if rc != 0 and (sanitize == 'address' or lib or rc == 124):
+            what = (re.search(r'(ERROR: AddressSanitizer|WARNING: ThreadSanitizer): [^\n]*', se) or re.search(r'.*', se[-200:])).group(0)
+            p = vlib.save_replay(prop, 'task_stress_%s_%d.json' % (sanitize, sd), {'property': prop, 'program': 'harness/task_stress.c', 'sanitizer': sanitize,
+                                 'seed': sd, 'exit': rc, 'stderr': se[-4000:]})
+            rep.cov['task_stress_runs_%s' % sanitize] = runs
+            return [(p, 'task sources under stress (harness/task_stress.c, seed %d, -fsanitize=%s): %s' % (sd, sanitize, what), True)]
+    rep.cov['task_stress_runs_%s' % sanitize] = runs
     return []
